@@ -704,6 +704,63 @@ def scope_var_limit(prog, chk):
                 ok = any(body.dominates(lp[0], b) and b not in lp[1] for lp in guards) and R.constructs_variant(body, body.reachable, "svgdx::errors::SvgdxError", "VarLimitError")
                 chk.ob(ok, "A7.scope-var-limit", f"{body.short}:{name}:redispatch", body.where(b, t.get("line")), f"`{name}` (attributes evaluated) is processed as an element again only after its attributes passed a var_limit test", f"{body.short} evaluates the attributes of `{name}` and then processes it as an element again without testing them against var_limit: if it is a container its (expanded) attributes become variables of its content - a group that reuses itself with v=\"$v$v\" doubles the value at every level (memory exhaustion long before the depth limit)")
     chk.floor("A7.scope-var-limit:redispatch", m, 1, "element evaluated and dispatched again")
+    # every attribute of the loop reaches the test: the only licence to skip one is that its value is the one written
+    # in the document (a comparison against a lookup in the unevaluated attributes), never its *name*
+    k = 0
+    for body in prog.bodies.values():
+        if body.unit != "svgdx-lib":
+            continue
+        seen_loops = set()
+        for (x, i, node) in R.place_reads(body, (".var_limit",)):
+            lp = R.loop_containing(body, x)
+            if lp is None or lp[0] in seen_loops or _attrs_loop_element(body, lp[0]) is None:
+                continue
+            seen_loops.add(lp[0])
+            k += 1
+            # the block that performs the comparison against the limit
+            cmpb = x
+            skips = []
+            for sblk in sorted(lp[1]):
+                t = body.term(sblk)
+                if t["k"] != "switch" or sblk == cmpb or body.dominates(cmpb, sblk):
+                    continue
+                # a successor from which the header is reached again without passing the comparison
+                bypass = [y for y in body.succ[sblk] if y in lp[1] and lp[0] in body.reach([y], avoid={cmpb}) and y != lp[0] or y == lp[0]]
+                through = [y for y in body.succ[sblk] if cmpb in body.reach([y], avoid={lp[0]}) or y == cmpb]
+                if not bypass or not through:
+                    continue
+                o = R.origin(body, t["op"], carriers={})
+                if o[0] == "rv" and o[1].get("k") == "discr" and "Option<" in o[1].get("ty", "") and "(&" in o[1].get("ty", ""):
+                    continue  # the iterator's own Some/None test
+                if _derives_from_map_lookup(body, t["op"]):
+                    continue
+                skips.append(body.where(sblk, t.get("line")))
+            chk.ob(not skips, "A7.scope-var-limit", f"{body.short}:every-attribute", body.where(lp[0]), "every attribute that becomes a variable reaches the var_limit test (values unchanged by evaluation excepted)", f"{body.short}: some attributes skip the var_limit test by a condition that does not compare the value with the one written in the document ({', '.join(skips)}); every attribute of the element becomes a variable of the new scope, so an exempted *name* (e.g. id=\"$id$id\") still doubles at every level of a recursive reuse")
+    chk.floor("A7.scope-var-limit:every-attribute", k, 2, "var_limit loop over an element's attributes")
+
+
+def _derives_from_map_lookup(body, op, depth=6):
+    """does the operand come from comparing with the result of a HashMap lookup (`source_attrs.get(key) == Some(value)`)?"""
+    o = R.origin(body, op, carriers={})
+    if o[0] == "call" and "fn" in o[2]:
+        c = Callee(o[2]["fn"])
+        if "HashMap" in c.inst and c.path.split("::")[-1] == "get":
+            return True
+        if depth > 0:
+            return any(_derives_from_map_lookup(body, a, depth - 1) for a in o[2]["args"])
+    if o[0] == "rv" and depth > 0:
+        rv = o[1]
+        for kk in ("op", "a", "b"):
+            if isinstance(rv.get(kk), dict) and _derives_from_map_lookup(body, rv[kk], depth - 1):
+                return True
+        if rv.get("k") == "ref":
+            pl = P(rv["place"])
+            d = body.single_def(pl[0])
+            if d is not None and d[1] == R.TERM and "fn" in d[2]:
+                c = Callee(d[2]["fn"])
+                if "HashMap" in c.inst and c.path.split("::")[-1] == "get":
+                    return True
+    return False
 
 
 def depth_test_unconditional(prog, chk):
